@@ -370,3 +370,14 @@ func (c *Ctx) flushSched() {
 		c.SchedOut[sp.name] = *sp.p
 	}
 }
+
+// dropSched forgets the recorded decisions of a finished, passing run of this case.
+func (c *Ctx) dropSched(name string) {
+	delete(c.SchedOut, name)
+	for i, sp := range c.schedPtrs {
+		if sp.name == name {
+			c.schedPtrs = append(c.schedPtrs[:i], c.schedPtrs[i+1:]...)
+			break
+		}
+	}
+}
